@@ -641,12 +641,37 @@ def map_key(key, f):
     return key
 
 
-def free_ivars(e: Expr) -> set:
+# Pseudo index variables '@k' stand for a data-dependent position expression (arrays.intern_index).  The expression may mention
+# index variables itself (the j of `X[i + 1 + j]`): everything that asks which variables an expression depends on, or replaces
+# one, has to look through the name.
+INDEX_NAMES = {}
+INDEX_EXPRS = {}
+
+
+def intern_index(x: Expr) -> str:
+    if x not in INDEX_NAMES:
+        name = f"@{len(INDEX_NAMES) + 1}"
+        INDEX_NAMES[x] = name
+        INDEX_EXPRS[name] = x
+    return INDEX_NAMES[x]
+
+
+def _through_interned(names: set, depth=0) -> set:
+    out = set(names)
+    if depth > 6:
+        return out
+    for nme in names:
+        if isinstance(nme, str) and nme.startswith("@") and nme in INDEX_EXPRS:
+            out |= free_ivars(INDEX_EXPRS[nme], depth + 1)
+    return out
+
+
+def free_ivars(e: Expr, _depth=0) -> set:
     t = e[0]
     if t == "in":
-        return {i[0] for i in e[2] if isinstance(i, tuple)}
+        return _through_interned({i[0] for i in e[2] if isinstance(i, tuple)}, _depth)
     if t == "iv":
-        return {e[1]}
+        return _through_interned({e[1]}, _depth)
     if t == "sum":
         out = free_ivars(e[3]) - {e[1]}
         for k in key_exprs(e[2]):
@@ -737,6 +762,17 @@ def subst_ivar(e: Expr, ivar: str, to) -> Expr:
     def leaf(x):
         return x
 
+    def reintern(nme):
+        """'@k' whose position expression mentions `ivar`: the name of the substituted expression (or its integer value)"""
+        if isinstance(nme, str) and nme.startswith("@") and nme in INDEX_EXPRS and ivar in free_ivars(INDEX_EXPRS[nme]):
+            x2 = rec(INDEX_EXPRS[nme])
+            if x2[0] == "num" and float(x2[1]).is_integer():
+                return int(x2[1])
+            if x2[0] == "iv":
+                return (x2[1], x2[2])
+            return (intern_index(x2), 0)
+        return None
+
     def rec(x: Expr) -> Expr:
         t = x[0]
         if t == "in":
@@ -747,6 +783,9 @@ def subst_ivar(e: Expr, ivar: str, to) -> Expr:
                         idx.append(to + i[1])
                     else:
                         idx.append((to[0], to[1] + i[1]))
+                elif isinstance(i, tuple) and reintern(i[0]) is not None:
+                    r_ = reintern(i[0])
+                    idx.append(r_ + i[1] if isinstance(r_, int) else (r_[0], r_[1] + i[1]))
                 else:
                     idx.append(i)
             return In(x[1], tuple(idx))
@@ -755,6 +794,9 @@ def subst_ivar(e: Expr, ivar: str, to) -> Expr:
                 if isinstance(to, int):
                     return Num(to + x[2])
                 return IV(to[0], to[1] + x[2])
+            r_ = reintern(x[1])
+            if r_ is not None:
+                return Num(r_ + x[2]) if isinstance(r_, int) else IV(r_[0], r_[1] + x[2])
             return x
         if t == "sel":
             if x[1] == ivar:
